@@ -1205,10 +1205,10 @@ class PerturbedDroplet3D(PerturbedDropletBase):
     @property
     def volume_approx(self) -> float:
         """float: approximate volume to linear order in the perturbation"""
-        volume = spherical.volume_from_radius(self.radius, 3)
-        if len(self.amplitudes) > 0:
-            volume += self.amplitudes[0] * 2 * np.sqrt(np.pi) * self.radius**2
-        return volume
+        # the spherical harmonics of degree l >= 1 integrate to zero over the sphere, so
+        # the perturbation modes (the zero-th mode is skipped) do not change the volume
+        # to linear order
+        return spherical.volume_from_radius(self.radius, 3)
 
 
 class PerturbedDroplet3DAxisSym(PerturbedDropletBase):
@@ -1283,10 +1283,10 @@ class PerturbedDroplet3DAxisSym(PerturbedDropletBase):
     @property
     def volume_approx(self) -> float:
         """float: approximate volume to linear order in the perturbation"""
-        volume = spherical.volume_from_radius(self.radius, 3)
-        if len(self.amplitudes) > 0:
-            volume += self.amplitudes[0] * 2 * np.sqrt(np.pi) * self.radius**2
-        return volume
+        # the spherical harmonics of degree l >= 1 integrate to zero over the sphere, so
+        # the perturbation modes (the zero-th mode is skipped) do not change the volume
+        # to linear order
+        return spherical.volume_from_radius(self.radius, 3)
 
 
 def droplet_from_data(droplet_class: str, data: np.ndarray) -> DropletBase:
